@@ -425,8 +425,13 @@ def _history_batch(sc, r):
     t = 1.0
     ents = list(range(len(rc['protect'])))
     r.shuffle(ents)
+    early = r.random() < 0.5
     for i, e in enumerate(ents + ents[:1]):
         ops.append({'t': round(t, 3), 'op': 'packet', 'node': who, 'flow': configs.flow_for_entry(r, rc['my_addr'], rc['peer_addr'], rc['protect'][e])})
+        if i == 0 and early:
+            # the next ACQUIRE arrives while the IKE_SA it is handed to is still being set up (IKE_SA_INIT / IKE_AUTH outstanding)
+            t += r.choice([0.0, 0.004, 0.012, 0.025, 0.035])
+            continue
         t += r.choice([0.7, 1.5, 3.0])
         for _ in range(r.randint(0, 2)):
             ops.append({'t': round(t, 3), 'op': 'expire', 'node': r.choice([who, who, 'A', 'B']), 'which': r.randrange(4), 'dir': r.choice(['in', 'out']),
@@ -692,6 +697,40 @@ def run(scenario):
                             f'either half to its kernel; its kernel requests at that instant: '
                             f'{[(r_["type"], r_["errno"]) for r_ in node.kernel.requests if abs(r_["t"] - got) < 1e-9]}')
                 return
+        # ---- every ACQUIRE for an installed index is negotiated (batch history: loss-free, nobody restarts, the peer answers): within 6 s a
+        #      request whose selectors cover the reported flow leaves the endpoint, whatever the IKE_SA was doing when the ACQUIRE came
+        if scenario['meta'].get('batch') == 'history' and not w.violations:
+            def covers(sels, addr, port, proto):
+                a = ipaddress.ip_address(addr)
+                for x in sels:
+                    if len(x['saddr']) != (4 if a.version == 4 else 16):
+                        continue
+                    if int.from_bytes(x['saddr'], 'big') <= int(a) <= int.from_bytes(x['eaddr'], 'big') and x['sport'] <= port <= x['eport'] \
+                            and x['proto'] in (0, proto):
+                        return True
+                return False
+            from sim import refike as R_
+            reqs = [m for m in ctx['tap'].messages if not m['clear'] and not m['h']['R'] and m['h']['exch'] in (R_.IKE_AUTH, R_.CREATE_CHILD_SA)]
+            for (t_, n_, flow, res) in ctx.get('packets', []):
+                if res != 'acquire' or t_ + 6.0 > w.now or w.nodes[n_].state != 'running':
+                    continue
+                orc_._r('history.acquires_followed')
+                ok = False
+                for m in reqs:
+                    if m['sender'] != n_ or m['t'] < t_ - 1e-9 or m['t'] > t_ + 6.0:
+                        continue
+                    tsi = next((p['selectors'] for p in m['payloads'] if p['type'] == R_.P_TSi), [])
+                    tsr = next((p['selectors'] for p in m['payloads'] if p['type'] == R_.P_TSr), [])
+                    if covers(tsi, flow['saddr'], flow['sport'], flow['proto']) and covers(tsr, flow['daddr'], flow['dport'], flow['proto']):
+                        ok = True
+                        break
+                if not ok:
+                    node_ = w.nodes[n_]
+                    w.violation(PROP, 'acquire_never_negotiated', {'ike_sa_was': 'in_history_batch'},
+                                f'{n_}: the kernel raised an ACQUIRE for {flow} at t={t_:.3f}; over a loss-free network with the peer answering, no IKE_AUTH / '
+                                f'CREATE_CHILD_SA request covering that flow left {n_} in the following 6 s; errors logged: '
+                                f'{[l[3][:90] for l in w.logs if l[1] == n_ and l[2] >= 40 and t_ - 1e-9 <= l[0] <= t_ + 6.0][:3]}')
+                    return
         pr = ctx['probes']
         if pr and any(p[1] for p in pr):
             ctx['oracle']._r('probe_after_restart_ok')
